@@ -41,6 +41,16 @@ type backendResp struct {
 	BareBody     int // variations of the body of a bare HTTP failure
 	DeclLower    bool   // declared trailer names in lower case
 	Junk         []byte // bytes after the end-of-stream frame, in the same write
+	BadEnd       int    // 1: end-of-stream frame that cannot be parsed, 2: flagged compressed but is not
+}
+
+func (b backendResp) badEndEffective() bool {
+	if b.BadEnd == 2 && b.Comp != "gzip" {
+		// a compressed flag without a declared compression is read as "not compressed", as for data messages
+		return false
+	}
+	return b.BadEnd != 0 && b.BareStatus == 0 &&
+		((b.Target == vanguard.ProtocolGRPCWeb && !b.TrailersOnly) || (b.Target == vanguard.ProtocolConnect && b.Streaming))
 }
 
 func percentEncode(s string) string {
@@ -164,7 +174,14 @@ func (b backendResp) script(r *rng, et *endTables) []action {
 			for _, kv := range endKV {
 				sb.WriteString(strings.ToLower(kv[0]) + ": " + kv[1] + "\r\n")
 			}
-			frames = append(frames, envelope(0x80, []byte(sb.String())))
+			switch {
+			case b.BadEnd == 1:
+				frames = append(frames, envelope(0x80, []byte("grpc-status "+strconv.FormatInt(b.ErrCode, 10)+"\r\n")))
+			case b.BadEnd == 2:
+				frames = append(frames, envelope(0x81, []byte(sb.String())))
+			default:
+				frames = append(frames, envelope(0x80, []byte(sb.String())))
+			}
 		default:
 			if b.DeclTrailers {
 				var names []string
@@ -203,7 +220,15 @@ func (b backendResp) script(r *rng, et *endTables) []action {
 				end["metadata"] = md
 			}
 			data, _ := json.Marshal(end)
-			frames = append(frames, envelope(2, data))
+			switch {
+			case b.BadEnd == 1:
+				data = append([]byte("{"), data...)
+				frames = append(frames, envelope(2, data))
+			case b.BadEnd == 2:
+				frames = append(frames, envelope(3, data))
+			default:
+				frames = append(frames, envelope(2, data))
+			}
 			var errV any = L{}
 			if b.ErrCode != 0 {
 				errV = L{b.errValue()}
@@ -217,7 +242,9 @@ func (b backendResp) script(r *rng, et *endTables) []action {
 			for _, k := range keys {
 				mdv = append(mdv, L{B(k), Bl(md[k])})
 			}
-			et.connectEnd[string(data)] = L{errV, mdv}
+			if b.BadEnd != 1 {
+				et.connectEnd[string(data)] = L{errV, mdv}
+			}
 		}
 	default: // Connect unary
 		ct = "application/" + b.Codec
@@ -508,6 +535,11 @@ func genResp(r *rng, limits []uint32) *respCase {
 	case 4:
 		b.Junk = pick(r, [][]byte{{0}, []byte("junk after the end"), {0, 0, 0, 0, 1, 'x'}})
 		tag += "+junk"
+	case 5:
+		b.BadEnd = 1 + r.intn(2)
+		if b.badEndEffective() {
+			tag += "+badend"
+		}
 	}
 	if b.DeclTrailers && r.chance(1, 2) {
 		b.DeclLower = true
@@ -601,7 +633,7 @@ func (rc *respCase) run(split int) (in L, out L, view clientView, res scenarioRe
 			rest = rest[5+n:]
 		}
 	}
-	wellformed := b.WrongCT == "" && (b.Comp == "" || b.Comp == "gzip" || b.Comp == "identity") && cutEffective == 0 &&
+	wellformed := b.WrongCT == "" && (b.Comp == "" || b.Comp == "gzip" || b.Comp == "identity") && cutEffective == 0 && !b.badEndEffective() &&
 		b.ErrCode >= 0 && b.ErrCode <= 16
 	if b.BareStatus/100 == 2 && b.BareStatus != 200 {
 		wellformed = false // a 2xx other than 200 is not a defined outcome of the RPC protocols
